@@ -163,6 +163,9 @@ func taScenarios(thorough bool) []*scenario {
 	add("ta/G2-G2-KS+reconf", machine16(), []cfgSpec{taCfg("rsv750m"), taCfg("rsv-cpuset", taReserved("cpuset:0,8"))},
 		append(pods(tG2, tG2), ks), menu{stop: true, remove: true, reconf: []int{0, 1}}, nil)
 	add("ta/G2-B500+update", machine16(), std, pods(tG2, tB500, tG1), menu{stop: true, update: true}, big)
+	// one pool only: an update that is refused after the container's old grant was released has already widened the shared
+	// set of every other container of the machine
+	add("ta/1pool/G2-B500-B200+update", &sysgen.Spec{Name: "1s1n4c2t", Packages: 1, NodesPerDie: 1, CoresPerNode: 4, Threads: 2}, std, pods(tG2, tB500, tB200), menu{stop: true, update: true}, big)
 	add("ta/iso/G1-G2-B500", machine16iso(), std, pods(tG1, tG2, tB500), menu{stop: true, remove: true, sync: true}, nil)
 	add("ta/avail/G2-G1500-BE", machine16(), []cfgSpec{taCfg("avail", taAvailable("cpuset:0-6,8-14"), taReserved("cpuset:0"))}, pods(tG2, tG1500, tBE), menu{stop: true, remove: true}, nil)
 	add("ta/8cpu/G3-B1500-B500", machine8(), std, pods(tG3, tB1500, tB500), menu{stop: true, remove: true}, nil)
@@ -446,6 +449,7 @@ var (
 	tBM3G  = &tmpl{name: "BM3G", cpuReq: 300, cpuLim: 1000, memLim: 3 * giB, oomAdj: 955} // ~2.9 GiB request
 	tBM6G  = &tmpl{name: "BM6G", cpuReq: 300, cpuLim: 1000, memLim: 6 * giB, oomAdj: 910} // ~5.8 GiB request
 	tG1M1G = &tmpl{name: "G1M1G", cpuReq: 1000, cpuLim: 1000, memLim: 1 * giB}
+	tG7M3G = &tmpl{name: "G7M3G", cpuReq: 7000, cpuLim: 7000, memLim: 3 * giB}
 )
 
 func machinePMEM() *sysgen.Spec {
@@ -484,6 +488,9 @@ func c04Scenarios(thorough bool) []*scenario {
 	pmemAnn := map[string]string{annMemType: "dram,pmem"}
 	add("ta/mem/2dram/M3G-M3G-BM3G", polTA, machine8(), std, pods(tM3G, tM3G, tBM3G), lm)
 	add("ta/mem/2dram/M5G-M2G-BE", polTA, machine8(), std, pods(tM5G, tM2G, tBE), lm)
+	// a request that is refused for CPU (more exclusive CPUs than the policy can slice) while its memory would have pushed
+	// other containers to wider zones: nothing of it may stay behind in the allocator
+	add("ta/mem/refused-for-cpu/BM3G-M3G-G7M3G-M2G", polTA, machine8(), std, pods(tBM3G, tM3G, tG7M3G, tM2G), lm)
 	// a configuration update (even an identical one) re-registers every allocation with the memory allocator: later
 	// admissions must still see what the older containers hold
 	add("ta/mem/2dram+reconf/M3G-M3G-M2G", polTA, machine8(), std, pods(tM3G, tM3G, tM2G), menu{stop: true, reconf: []int{0}})
@@ -1098,6 +1105,15 @@ func c16PoolCases(thorough bool) []*scenario {
 							}
 							for _, cfg := range cfgs {
 								out = append(out, &scenario{name: m.Name + "/" + cfg.label, policy: polTA, machine: m, cfgs: []cfgSpec{cfg}, maxInc: 1})
+							}
+							// the same configurations reached by an accepted update of a running policy (every ordered pair): the
+							// tree must be the one a fresh start with the second configuration builds
+							for i, a := range cfgs {
+								for j, b := range cfgs {
+									if i != j {
+										out = append(out, &scenario{name: m.Name + "/" + a.label + "->" + b.label, policy: polTA, machine: m, cfgs: []cfgSpec{a, b}, maxInc: 1})
+									}
+								}
 							}
 						}
 					}
